@@ -142,6 +142,7 @@ func loadWorld(repo, goos, goarch string) (*World, error) {
 			}
 		}
 	}
+	theWorld = w
 	return w, nil
 }
 
